@@ -10,7 +10,7 @@ PROPS = {
         "kind": "c06",
         "module": "Props.C06",
         "namespace": "Jl.C06",
-        "extra_theorem_files": [("Proofs.RowSerial", "Jl.RowSerial")],
+        "extra_theorem_files": [("Proofs.RowSerial", "Jl.RowSerial"), ("Proofs.RowTie", "Jl.RowTie"), ("Proofs.RowTieAll", "Jl.RowTie")],
         "rule": ("histories of row mutators over the key alphabet {'', a, ab, b, é, a.b}: every history of length "
                  "1 and 2 (thorough: 3) over a fixed op alphabet, plus random histories of length 3-60; after every "
                  "step Len, IterValues, Has, Get, GetValueAtIndex(-1..len) and the key order of MarshalJSON are "
@@ -47,7 +47,7 @@ PROPS = {
         "jl": True,
         "module": "Props.C10",
         "namespace": "Jl.C10",
-        "extra_theorem_files": [("Proofs.CastTyped", "Jl.CastTyped"), ("Proofs.ValueTie", "Jl.ValueTie")],
+        "extra_theorem_files": [("Proofs.CastTyped", "Jl.CastTyped"), ("Proofs.ValueTie", "Jl.ValueTie"), ("Proofs.TypedHistory", "Jl.TypedHistory")],
         "rule": ("19 casters + cast.To with each of the 18 sample types (and an unsupported one) x a universe of ~140 source values of "
                  "~60 dynamic types: nil, the 19 supported types with several values each (boundary numbers, look-alike strings, byte "
                  "slices of sizes 0/1/2/4/8, times incl. years < 0 and > 9999), named variants, typed nils, pointers, structs, maps, "
@@ -93,7 +93,7 @@ PROPS = {
         "jl": True,
         "module": "Props.C01",
         "namespace": "Jl.C01",
-        "extra_theorem_files": [("Proofs.JsonQuote", "Jl.JsonQuote"), ("Proofs.JsonPrint", "Jl.JsonPrint"), ("Proofs.ExportText", "Jl.ExportText")],
+        "extra_theorem_files": [("Proofs.JsonQuote", "Jl.JsonQuote"), ("Proofs.JsonPrint", "Jl.JsonPrint"), ("Proofs.ExportText", "Jl.ExportText"), ("Proofs.RowTieMarshal", "Jl.RowTie"), ("Proofs.FlowTieExport", "Jl.FlowTie")],
         "rule": ("one input line through importer (template ti) and exporter (template to) as jl does, and Go values handed to Export "
                  "through the API (maps, slices, rows): random templates (0-5 columns, 9 formats x 18 raw types, hidden anywhere, "
                  "sub-rows to depth 3) with keys from every class the writer treats differently (controls, quotes, backslash, DEL, C1, "
@@ -115,7 +115,7 @@ PROPS = {
         "jl": True,
         "module": "Props.C03",
         "namespace": "Jl.C03",
-        "extra_theorem_files": [("Proofs.Order", "Jl.Order"), ("Proofs.LineKeys", "Jl.LineLevel"), ("Proofs.LineValues", "Jl.LineValues")],
+        "extra_theorem_files": [("Proofs.Order", "Jl.Order"), ("Proofs.LineKeys", "Jl.LineLevel"), ("Proofs.LineValues", "Jl.LineValues"), ("Proofs.RowTie", "Jl.RowTie"), ("Proofs.FlowTie", "Jl.FlowTie")],
         "rule": ("templates with 0-6 columns in non-alphabetical order (names incl. '', 'é', 'a.b'), hidden anywhere, sub-rows to depth 3; "
                  "input and output template share names and structure as jl builds them; inputs: every permutation of the declared keys "
                  "(<= 4 keys; thorough 5), missing keys, extra keys, objects/arrays with >= 2 members in non-alphabetical order under "
@@ -132,7 +132,7 @@ PROPS = {
         "jl": True,
         "module": "Props.C04",
         "namespace": "Jl.C04",
-        "extra_theorem_files": [("Proofs.TimeShape", "Jl.TimeShape"), ("Proofs.LineLevel", "Jl.LineLevel"), ("Proofs.ValueTie", "Jl.ValueTie")],
+        "extra_theorem_files": [("Proofs.TimeShape", "Jl.TimeShape"), ("Proofs.LineLevel", "Jl.LineLevel"), ("Proofs.ValueTie", "Jl.ValueTie"), ("Proofs.FlowTie", "Jl.FlowTie")],
         "rule": ("9 output formats x (18 raw types + none) x 9 x 19 input descriptors (sampled) x ~85 JSON values (null, booleans, numbers "
                  "of every spelling and magnitude incl. 1e400, 30 digits, timestamps around years 0, 1970, 9999, 10000, +-2^63; strings "
                  "incl. numeric / boolean / base64 / date / date-time look-alikes and near-misses; arrays; objects), at top level and inside a "
@@ -163,7 +163,7 @@ PROPS = {
         "jl": True,
         "module": "Props.C16",
         "namespace": "Jl.C16",
-        "extra_theorem_files": [("Proofs.JsonAccept", "Jl.JsonAcc"), ("Proofs.JsonLexical", "Jl.JsonLex"), ("Proofs.LineAccept", "Jl.LineAccept")],
+        "extra_theorem_files": [("Proofs.JsonAccept", "Jl.JsonAcc"), ("Proofs.JsonLexical", "Jl.JsonLex"), ("Proofs.LineAccept", "Jl.LineAccept"), ("Proofs.FlowTieImport", "Jl.FlowTie"), ("Proofs.RowTieText", "Jl.RowTie")],
         "rule": ("~90 hand-written texts (every rejection class named by the property, truncations, trailing content, comments, BOM, NUL, "
                  "vertical tab, form feed, NBSP, 70 KB string) and, per random valid object: the object, a truncation at a random offset, a "
                  "1-3 byte mutation (insert / delete / replace from the structural alphabet plus control and non-UTF-8 bytes), trailing "
@@ -180,7 +180,7 @@ PROPS = {
         "jl": True,
         "module": "Props.C07",
         "namespace": "Jl.C07",
-        "extra_theorem_files": [("Proofs.Scanner", "Jl.Scanner"), ("Proofs.Stream", "Jl.Stream"), ("Proofs.StreamAccept", "Jl.StreamAccept")],
+        "extra_theorem_files": [("Proofs.Scanner", "Jl.Scanner"), ("Proofs.Stream", "Jl.Stream"), ("Proofs.StreamAccept", "Jl.StreamAccept"), ("Proofs.FlowTieStream", "Jl.FlowTie"), ("Proofs.FlowTieImport", "Jl.FlowTie")],
         "rule": ("streams of 0-7 lines drawn from valid objects, blank lines, invalid JSON, non-object values, lines rejected by the template "
                  "and trailing-content lines, with LF / CRLF / missing final newline, delivered by readers returning 1-byte, 3-, 7-byte, "
                  "mixed-with-empty-reads, 64-, 1000-byte and whole-buffer chunks, under the default and the tolerant processor; line "
@@ -197,7 +197,7 @@ PROPS = {
         "jl": True,
         "module": "Props.C08",
         "namespace": "Jl.C08",
-        "extra_theorem_files": [("Proofs.Stream", "Jl.Stream"), ("Proofs.ScannerLimit", "Jl.ScannerLimit")],
+        "extra_theorem_files": [("Proofs.Stream", "Jl.Stream"), ("Proofs.ScannerLimit", "Jl.ScannerLimit"), ("Proofs.FlowTieStream", "Jl.FlowTie"), ("Proofs.FlowTieImport", "Jl.FlowTie")],
         "rule": ("for each of 5 streams (<= 4 lines; LF/CRLF/blank/rejected lines; with and without final newline; empty): the reader failing "
                  "at EVERY byte offset k (as (0,err) after k bytes, as (k,err) with the data, and after 1-byte reads) and the writer failing "
                  "at EVERY write index j (plain failure and short write), each under the default, tolerant and fail-at-call-1 processors; "
@@ -211,7 +211,7 @@ PROPS = {
         "kind": "c17",
         "module": "Props.C17",
         "namespace": "Jl.C17",
-        "extra_theorem_files": [("Proofs.NoPanic", "Jl.NoPanic"), ("Proofs.MapTo", "Jl.MapTo"), ("Proofs.GettersExact", "Jl.GettersExact")],
+        "extra_theorem_files": [("Proofs.NoPanic", "Jl.NoPanic"), ("Proofs.MapTo", "Jl.MapTo"), ("Proofs.GettersExact", "Jl.GettersExact"), ("Proofs.RowTieGetters", "Jl.RowTie")],
         "rule": ("probes under recover() on three rows (empty, parsed from JSON with nulls / nested rows / arrays / look-alike strings, built "
                  "through the API with every raw type incl. a struct and a typed cell): all 16 typed getters x 14 keys (present, absent, empty, "
                  "null, nested, unconvertible); every positional operation x indexes -1, 0, 1, 5, 100, MinInt64, MaxInt64; GetAtPath / "
@@ -229,7 +229,7 @@ PROPS = {
         "kind": "c18",
         "module": "Props.C18",
         "namespace": "Jl.C18",
-        "extra_theorem_files": [("Proofs.PathRoundTrip", "Jl.PathRoundTrip")],
+        "extra_theorem_files": [("Proofs.PathRoundTrip", "Jl.PathRoundTrip"), ("Proofs.RowTieText", "Jl.RowTie")],
         "rule": ("5 documents (objects nested to depth 6, arrays of objects, mixed arrays, nested arrays, nulls, empty keys) given as JSON "
                  "text, as the equivalent programmatic construction, and mixed (a built row holding a parsed row holding built values); "
                  "GetValueAtPath/GetAtPath and FindValuesAtPath for every path of 1 and 2 segments over a 28-key alphabet plus 33 "
@@ -259,7 +259,7 @@ PROPS = {
         "kind": "c15",
         "module": "Props.C15",
         "namespace": "Jl.C15",
-        "extra_theorem_files": [("Proofs.Alias", "Jl.Alias"), ("Proofs.AliasFamily", "Jl.AliasFamily")],
+        "extra_theorem_files": [("Proofs.Alias", "Jl.Alias"), ("Proofs.AliasFamily", "Jl.AliasFamily"), ("Proofs.FlowTie", "Jl.FlowTie")],
         "rule": ("600 (thorough: 20000) interleavings of 2-40 operations — CreateRowEmpty, CreateRow from map / slice / JSON text / an existing "
                  "row, UnmarshalJSON into a live row (accepted, rejected by the template, syntactically invalid, duplicate keys), Set and "
                  "ImportAtKey on a live row (declared, undeclared, empty keys; convertible and unconvertible values), Export of a live row "
@@ -328,7 +328,7 @@ PROPS = {
         "jl": True,
         "module": "Props.C19",
         "namespace": "Jl.C19",
-        "extra_theorem_files": [("Proofs.JlDescriptor", "Jl.JlDescriptor")],
+        "extra_theorem_files": [("Proofs.JlDescriptor", "Jl.JlDescriptor"), ("Proofs.FlowTieAll", "Jl.FlowTie")],
         "rule": ("the jl binary built from the working tree, run in scratch directories (TZ=UTC): 120 (thorough: 3000) random column lists "
                  "(1-4 columns, names incl. non-ASCII and spaces, sub-rows to depth 2; input and output descriptors drawn from: absent, "
                  "every format, format(type) for all 19 type names, unknown names, wrong case, and the regexp's edge cases 'string()', "
